@@ -1,6 +1,7 @@
 import Logrange.Proofs.TruncateDry
 /-! TRUNCATE leaves the partitions its source condition does not select alone — the whole command. -/
 namespace Logrange.Truncate
+variable {acct : Bool}
 
 /-! ### the visitor body and the selection flag -/
 
@@ -148,7 +149,7 @@ theorem passWrite_mem (s : Nat) (db db1 : List Part) (hw : PassWrite s db db1) (
 theorem globalLoop_unsel (strict : Bool) (gMin gMax : Nat) (p : Params) :
     ∀ (infos : List Info) (ts : Nat) (db : List Part),
       (∀ ti ∈ infos, ∀ q ∈ db, q.src = ti.src → q.sel = true) →
-      (globalLoop strict gMin gMax p infos ts db).2.filter (fun q => !q.sel) = db.filter (fun q => !q.sel) := by
+      (globalLoop acct strict gMin gMax p infos ts db).2.filter (fun q => !q.sel) = db.filter (fun q => !q.sel) := by
   intro infos
   induction infos with
   | nil => intro ts db _; simp [globalLoop]
@@ -158,7 +159,7 @@ theorem globalLoop_unsel (strict : Bool) (gMin gMax : Nat) (p : Params) :
       fun tj h => hinv tj (List.mem_cons_of_mem _ h)
     have hti : ∀ q ∈ db, q.src = ti.src → q.sel = true := hinv ti (by simp)
     have key : ∀ db1, PassWrite ti.src db db1 → ∀ ts',
-        (globalLoop strict gMin gMax p rest ts' db1).2.filter (fun q => !q.sel) = db.filter (fun q => !q.sel) := by
+        (globalLoop acct strict gMin gMax p rest ts' db1).2.filter (fun q => !q.sel) = db.filter (fun q => !q.sel) := by
       intro db1 hw ts'
       rw [ih ts' db1 ?_]
       · exact passWrite_filter ti.src db db1 hw hti
@@ -190,7 +191,10 @@ theorem globalLoop_unsel (strict : Bool) (gMin gMax : Nat) (p : Params) :
           · simp only [hD, if_true] at hw ⊢
             exact key _ hw _
           · simp only [hD] at hw ⊢
-            exact key _ hw _
+            simp only [Bool.false_eq_true, if_false] at hw ⊢
+            by_cases ha : acct = true
+            · rw [if_pos ha]; exact key _ hw _
+            · rw [if_neg ha]; exact key _ hw _
       · simp only [h2, if_false]; exact key db (Or.inl rfl) ts
     · simp [h1]
 
@@ -205,7 +209,7 @@ theorem forall2_taken_src : ∀ (l l' : List Info), Forall2 Taken l l' → ∀ r
     rcases List.mem_cons.mp hr with rfl | hr
     · rcases hab with e | e
       · exact ⟨a, by simp, by rw [e]⟩
-      · exact ⟨a, by simp, e.2.2.1⟩
+      · exact ⟨a, by simp, e.2.1⟩
     · obtain ⟨ti, hti, e⟩ := ih r hr
       exact ⟨ti, List.mem_cons_of_mem _ hti, e⟩
 
@@ -230,8 +234,8 @@ theorem sortedInfos_sel (strict : Bool) (p : Params) (order : List Part) (hnd : 
 relative order), and no report line names such a partition -/
 theorem run_unselected_untouched (strict : Bool) (gMin gMax : Nat) (p : Params) (order : List Part)
     (hnd : (order.map (·.src)).Nodup) :
-    (run strict gMin gMax p order).db.filter (fun q => !q.sel) = order.filter (fun q => !q.sel) ∧
-    ∀ r ∈ (run strict gMin gMax p order).reports, ∀ q ∈ order, q.sel = false → r.src ≠ q.src := by
+    (run acct strict gMin gMax p order).db.filter (fun q => !q.sel) = order.filter (fun q => !q.sel) ∧
+    ∀ r ∈ (run acct strict gMin gMax p order).reports, ∀ q ∈ order, q.sel = false → r.src ≠ q.src := by
   unfold run phase2
   simp only []
   rw [phase1_eq]
@@ -265,7 +269,7 @@ theorem run_unselected_untouched (strict : Bool) (gMin gMax : Nat) (p : Params) 
 example :
     let order : List Part :=
       [⟨1, true, 0, [⟨1, 10, 5⟩, ⟨2, 10, 6⟩]⟩, ⟨2, false, 0, [⟨1, 10, 5⟩, ⟨2, 10, 6⟩]⟩]
-    let out := run true 0 1 { maxSrc := 10 } order
+    let out := run false true 0 1 { maxSrc := 10 } order
     (order.map (·.src)).Nodup ∧
     out.db ≠ order ∧
     out.reports.map (·.src) = [1] ∧
